@@ -223,7 +223,12 @@ theorem C09_all_replaced_across_apis (rs : List Reg) (h h' : Nat) (short : Optio
   | some s => simp [hi, hn s rfl, hall]
 
 theorem C09_gen : Gen.allCmdIndex = (4294967295, 4294967295, 0) ∧ Gen.capErrorReports = 1 ∧
-    Gen.muxServeRLockDeferred = true := by decide
+    Gen.muxServeRLockDeferred = true ∧
+    -- the dispatch consults exactly these maps with exactly these keys, in this order (`Mux.dispatch`):
+    -- the index map with the message's own key, the name map, the index map with ALL_CMD_INDEX
+    Gen.muxDispatchLookups = ["ServeDIAM:mux.idxMap[idx]", "serveIdx:mux.idxMap[cmd]", "serveIdx:mux.idxMap[ALL_CMD_INDEX]",
+      "serve:mux.m[cmd]", "serve:mux.idxMap[ALL_CMD_INDEX]"] ∧
+    Gen.muxStructFields = ["e chan *ErrorReport", "mu sync.RWMutex", "m map", "idxMap map"] := by decide
 
 /-- non-vacuity: index beats name beats ALL; re-registration replaces -/
 example :
